@@ -94,6 +94,9 @@ def draw_td_op(rng, name, world):
     else:
         normalized = rng.random() < 0.6
         op.update({"normalized": normalized,
+                   # the flag as callers hold it: a Python bool, a numpy bool (the result of a comparison, an entry of a
+                   # configuration array) or 0 / 1
+                   "norm_as": rng.choice(["bool", "bool", "np", "int"]),
                    "thr": rng.choice([0.3, 0.6, 0.9, 0.99, 1.0]) if normalized else rng.choice([2.5, 3.5, 5.0, 30.0, 1e3])})
     return op
 
@@ -120,7 +123,7 @@ def _call(H, name, recs, op, hvsr, container=None, **over):
                 return H.sta_lta_window_rejection(box, sta_seconds=a["sta"], lta_seconds=a["lta"],
                                                   min_sta_lta_ratio=a["min"], max_sta_lta_ratio=a["max"],
                                                   components=comps, hvsr=hvsr)
-            return H.maximum_value_window_rejection(box, maximum_value_threshold=a["thr"], normalized=a["normalized"],
+            return H.maximum_value_window_rejection(box, maximum_value_threshold=a["thr"], normalized={"np": np.bool_, "int": int}.get(a.get("norm_as"), bool)(a["normalized"]),
                                                     components=comps, hvsr=hvsr)
 
 
